@@ -354,6 +354,13 @@ class err_handler(object):
         @param err_str: Description of the error
         @type err_str: string
         """
+        if self.cur_seg_node is not None and self.cur_seg_node.id == 'SEG' and not self.seg_node_added \
+                and (self.cur_st_node is None or self.cur_st_node.is_closed()):
+            # An element error of a segment outside of any transaction set (a
+            # TA1): there is no set to file it under
+            self._gs_content_error()
+            self.isa_error('024', err_str)
+            return
         self._add_cur_ele()
         self.cur_ele_node.add_error(
             err_cde, err_str, bad_value)  # , pos, data_ele)
